@@ -13,7 +13,8 @@ strategy, the channel and the aggregator, which is where the property's rational
     extract_probe_resp before parsing, `sent` the SystemTime::now() taken in send_request and handed to next_probe / reissue_probe.
  R5 per-status counter effect table of the aggregator (= C05.R1/R2, imported): none invented, dropped or counted twice.
  R6 publish-once pairing (= C08.R3, C20.O4 imported): one publication and one advance per round, one handler call per publication; only
-    complete_probe turns Awaited into Complete and only for the first genuine response (= C03.R2/R4, imported).
+    complete_probe turns Awaited into Complete and only for the first genuine response (= C03.R2/R4, imported); what counts as genuine is
+    Strategy::validate's 72-cell truth table (= C03.R5 / R5v, imported).
 """
 import re
 
@@ -30,7 +31,7 @@ def run(chk, tier):
     run_sub(chk, 'c19', 'C19.', {'R1'})
     run_sub(chk, 'c05', 'C05.', {'R1', 'R2', 'R3'})
     run_sub(chk, 'c08', 'C08.', {'R3'})
-    run_sub(chk, 'c03', 'C03.', {'R2', 'R4'})
+    run_sub(chk, 'c03', 'C03.', {'R2', 'R4', 'R5v', 'R5'})
     run_sub(chk, 'c09', 'C09.', {'R4'})
     run_sub(chk, 'c20', 'C20.', {'O4'})
 
